@@ -53,6 +53,7 @@ from mashumaro.core.meta.helpers import (
     is_union,
     is_unpack,
     resolve_type_params,
+    substitute_type_params,
     type_name,
 )
 from mashumaro.core.meta.types.common import NoneType
@@ -697,7 +698,7 @@ def on_named_tuple(instance: Instance, ctx: Context) -> JSONSchema:
         instance.origin_type, get_args(instance.type)
     )[instance.origin_type]
     annotations = {
-        k: resolved.get(v, v)
+        k: substitute_type_params(v, resolved)
         for k, v in getattr(
             instance.origin_type, "__annotations__", {}
         ).items()
@@ -748,7 +749,7 @@ def on_typed_dict(instance: Instance, ctx: Context) -> JSONObjectSchema:
         instance.origin_type, get_args(instance.type)
     )[instance.origin_type]
     annotations = {
-        k: resolved.get(v, v)
+        k: substitute_type_params(v, resolved)
         for k, v in instance.origin_type.__annotations__.items()
     }
     all_keys = list(annotations.keys())
